@@ -30,7 +30,7 @@ the computation returns `x` in a state satisfying `Q x`. -/
 structure Tr {α} (P : HState → Prop) (m : M α) (Q : α → HState → Prop) : Prop where
   out : ∀ s os, P s → Q (m.run (s, os)).1 (m.run (s, os)).2.1
 
-theorem Tr.pure {α} {P : HState → Prop} {Q : α → HState → Prop} (x : α) (h : ∀ s, P s → Q x s) :
+theorem Tr.ret {α} {P : HState → Prop} {Q : α → HState → Prop} (x : α) (h : ∀ s, P s → Q x s) :
     Tr P (pure x) Q := ⟨fun s _ hp => h s hp⟩
 
 theorem Tr.bind {α β} {P : HState → Prop} {m : M α} {Q : α → HState → Prop} {f : α → M β}
@@ -64,32 +64,32 @@ theorem Tr.ite {α} {P : HState → Prop} {b : Prop} [Decidable b] {m1 m2 : M α
   · rw [if_pos h]; exact h1 h
   · rw [if_neg h]; exact h2 h
 
-theorem Tr.getS {P : HState → Prop} : Tr P getS (fun r s => r = s ∧ P s) :=
+theorem Tr.get {P : HState → Prop} : Tr P getS (fun r s => r = s ∧ P s) :=
   ⟨fun _ _ hp => ⟨rfl, hp⟩⟩
 
 /-- `let s ← getS; …`: the continuation is verified from the state pinned to `s`. -/
-theorem Tr.getS_bind {β} {P : HState → Prop} {f : HState → M β} {R : β → HState → Prop}
+theorem Tr.get_bind {β} {P : HState → Prop} {f : HState → M β} {R : β → HState → Prop}
     (h : ∀ s0, P s0 → Tr (fun s => s = s0) (f s0) R) : Tr P (getS >>= f) R := by
   constructor
   intro s os hp
   exact (h s hp).out s os rfl
 
-theorem Tr.setS {P : HState → Prop} {Q : Unit → HState → Prop} (s' : HState)
+theorem Tr.set {P : HState → Prop} {Q : Unit → HState → Prop} (s' : HState)
     (h : ∀ s, P s → Q () s') : Tr P (setS s') Q := ⟨fun s _ hp => h s hp⟩
 
-theorem Tr.modS {P : HState → Prop} {Q : Unit → HState → Prop} (f : HState → HState)
+theorem Tr.mod {P : HState → Prop} {Q : Unit → HState → Prop} (f : HState → HState)
     (h : ∀ s, P s → Q () (f s)) : Tr P (modS f) Q := ⟨fun s _ hp => h s hp⟩
 
-theorem Tr.emit {P : HState → Prop} (o : Out) : Tr P (emit o) (fun _ => P) := ⟨fun _ _ hp => hp⟩
+theorem Tr.emt {P : HState → Prop} (o : Out) : Tr P (emit o) (fun _ => P) := ⟨fun _ _ hp => hp⟩
 
-theorem Tr.send {P : HState → Prop} (na : NA) (p : Pkt) : Tr P (send na p) (fun _ => P) :=
+theorem Tr.snd {P : HState → Prop} (na : NA) (p : Pkt) : Tr P (send na p) (fun _ => P) :=
   ⟨fun _ _ hp => hp⟩
 
 /-- A loop whose body keeps `P` keeps `P`. -/
-theorem Tr.forEach {α} {P : HState → Prop} (l : List α) (f : α → M Unit)
+theorem Tr.each {α} {P : HState → Prop} (l : List α) (f : α → M Unit)
     (h : ∀ x ∈ l, Tr P (f x) (fun _ => P)) : Tr P (forEach l f) (fun _ => P) := by
   induction l with
-  | nil => exact Tr.pure () (fun _ hp => hp)
+  | nil => exact Tr.ret () (fun _ hp => hp)
   | cons x xs ih =>
     rw [forEach_cons]
     exact Tr.bind (h x (List.mem_cons_self ..))
